@@ -119,7 +119,11 @@ impl<T: Copy> GuardBuf<T> {
         let data_pages = if pooled { POOL_PAGES } else { needed_pages };
         let map_len = (data_pages + 1) * page;
         unsafe {
-            let reuse = if pooled { POOL.with(|p| p.borrow_mut().iter().position(|(_, pl)| *pl == place).map(|i| p.borrow_mut().swap_remove(i).0)) } else { None };
+            let reuse = if pooled { POOL.with(|p| {
+                    let mut v = p.borrow_mut();
+                    let pos = v.iter().position(|(_, pl)| *pl == place);
+                    pos.map(|i| v.swap_remove(i).0)
+                }) } else { None };
             let map = match reuse {
                 Some(m) => m,
                 None => {
